@@ -97,7 +97,7 @@ let res f = function Ok x -> f x | Err -> "ERR"
 let show_value v =
   pyhex v.v_value ^ " " ^ pyhex v.v_den ^ " " ^ hex_of_str v.v_net.n_name ^ " " ^ res str_z (lib_value_sat v)
 
-let dispatch = function
+let rec dispatch = function
   | ["tables"] ->
       "default=" ^ hex_of_str default_network_name ^ " nets="
       ^ S.concat "," (List.map (fun n -> hex_of_str n.n_name ^ ":" ^ hex_of_str n.n_code ^ ":" ^ pyhex n.n_den) nets)
@@ -145,6 +145,89 @@ let dispatch = function
       (match lib_output_value (num_of v) (str_of_hex n) with
        | Ok o -> tok_of_num o ^ " " ^ res hex_of_bytes (lib_raw_value o)
        | Err -> "ERR")
+  (* ---- sessions: every step answered by the stateless functions above ---- *)
+  | "seq" :: rest ->
+      let rec split cur acc = function
+        | [] -> List.rev (List.rev cur :: acc)
+        | "|" :: tl -> split [] (List.rev cur :: acc) tl
+        | x :: tl -> split (x :: cur) acc tl in
+      let steps = split [] [] rest in
+      S.concat " | " (List.map (fun st -> match st with
+          | "!" :: tl -> dispatch tl
+          | _ -> dispatch st) steps)
+  | "vobj" :: init :: ops ->
+      let v0 = match S.split_on_char ',' init with
+        | ["S"; s; n] -> lib_value_init_str (str_of_hex s) None (net_of n)
+        | ["N"; z; d; n] -> lib_from_satoshi (z_of z) (dspec_of d) (net_of n)
+        | _ -> failwith "vobj init" in
+      (match v0 with
+       | Err -> "ERR"
+       | Ok v ->
+           let op_of t = match S.split_on_char ',' t with
+             | ["sat"] -> VSat
+             | ["str"; d; dec] -> VStr (dspec_of d, optz dec)
+             | ["bytes"] -> VBytes
+             | ["add"; b] | ["iadd"; b] -> VAdd (str_of_hex b)
+             | ["sub"; b] | ["isub"; b] -> VSub (str_of_hex b)
+             | ["mul"; k] -> VMul (z_of k)
+             | ["div"; k] -> VDiv (z_of k)
+             | ["addk"; b] -> VAddK (str_of_hex b)
+             | ["subk"; b] -> VSubK (str_of_hex b)
+             | ["mulk"; k] -> VMulK (z_of k)
+             | ["divk"; k] -> VDivK (z_of k)
+             | _ -> failwith "vop" in
+           let show = function
+             | RSat r -> res str_z r
+             | RStr r -> res hex_of_str r
+             | RBytes r -> res hex_of_bytes r
+             | RVal r -> res show_value r in
+           S.concat " | " ("OK" :: List.map show (lib_vsession v (List.map op_of ops))))
+  (* ---- amounts of one Transaction object through a sequence of operations (Model/AmountTx.v) ---- *)
+  | "txs" :: net :: _wt :: mode :: ins :: outs :: ops ->
+      let name = str_of_hex net in
+      let nw = match x_net name with Some n -> n | None -> failwith "xnet" in
+      let split c t = if t = "-" || t = "" then [] else S.split_on_char c t in
+      let ins_l = List.map z_of (split ',' ins) in
+      let outs_l = List.map (fun o -> match S.split_on_char ':' o with
+          | [v; c] -> (z_of v, c = "1") | _ -> failwith "txs out") (split ',' outs) in
+      let q_of t = match S.split_on_char '/' t with [a; b] -> (z_of a, z_of b) | _ -> failwith "q" in
+      let op_of t = match S.split_on_char ',' t with
+        | ["b"; f; e; vs; m; vs'] -> XBump (z_of f, z_of e, z_of vs, q_of m, z_of vs')
+        | ["a"; v; c] -> XAdd (num_of v, c = "1")
+        | ["av"; rep; v; c] -> XAddValue (rep = "1", str_of_hex v, c = "1")
+        | ["u"; vs] -> XUpdate (z_of vs)
+        | ["s"; vs'] -> XSign (z_of vs')
+        | ["e"; _] -> XEst
+        | ["c"; fpk; vs] -> XCalc (z_of fpk, z_of vs)
+        | _ -> failwith "xop" in
+      let err_s = function
+        | XeBump EBumpZeroFee -> "bumpzerofee" | XeBump EBumpFeeLow -> "bumpfeelow"
+        | XeBump EBumpExtraLow -> "bumpextralow" | XeBump EBumpNoChange -> "bumpnochange"
+        | XeBump _ -> "bumpother" | XeBadValue -> "badvalue" | XeAddOut -> "addout" | XeNoRate -> "norate"
+        | XeCtor -> "ctor" in
+      let out_s o = (match o.o_dest with ToChange i -> str_z i | ToScript _ -> "?") ^ ":i:" ^ str_z o.o_value ^ ":"
+                    ^ bool_s o.o_change in
+      let snap (r, st) =
+        (match r with XOk None -> "OK" | XOk (Some z) -> "OK r=i:" ^ str_z z | XErr e -> "ERR " ^ err_s e)
+        ^ " fee=i:" ^ str_z st.x_fee
+        ^ " fpk=" ^ (match st.x_fpk with None -> "N" | Some z -> "i:" ^ str_z z)
+        ^ " out=" ^ (if st.x_outs = [] then "-" else S.concat "," (List.map out_s st.x_outs)) in
+      (match x_init ins_l outs_l with
+       | None -> "ERR ctor"
+       | Some s0 ->
+           (* mode S<vs0>: sign_and_update() right after construction; U: the object as constructed *)
+           let first, s1 =
+             if mode.[0] = 'S' then
+               let a = x_step nw name s0 (XSign (z_of (S.sub mode 1 (S.length mode - 1)))) in (a, snd a)
+             else ((XOk None, s0), s0) in
+           S.concat " | " (snap first :: List.map snap (x_run nw name s1 (List.map op_of ops))))
+  (* the unrepaired loop (outp.value -= extra_fee), for the recorded witness *)
+  | ["origloop"; extra; outs] ->
+      let outs_l = List.mapi (fun i o -> match S.split_on_char ':' o with
+          | [v; c] -> { o_dest = ToChange (BZ.of_int i); o_value = z_of v; o_change = (c = "1") }
+          | _ -> failwith "out") (S.split_on_char ',' outs) in
+      let (rem, l) = bump_loop false (z_of extra) (z_of extra) outs_l in
+      str_z rem ^ " " ^ S.concat "," (List.map (fun o -> str_z o.o_value) l)
   | _ -> "BADREQ"
 
 let () = main dispatch
